@@ -28,7 +28,16 @@ def run(tier, replay=None):
     for k in range(n):
         LA, LB, L = rng.randint(0, maxl), rng.randint(0, maxl), rng.randint(0, maxl)
         C = [0.0, 0.0, 0.0]
-        kind = rng.choice(["far", "far", "tight", "diffuse-near", "mixed", "tight-far", "opposite"])
+        kind = rng.choice(["far", "far", "tight", "diffuse-near", "mixed", "tight-far", "opposite", "both-near-centre"])
+        if kind == "both-near-centre":
+            # both shells a hair off the ECP centre (beyond the 1e-6 on-centre switch), diffuse: the primitive pairs take the
+            # quadrature route and the integrand peaks far from both centres, where an estimate must still evaluate it
+            LA = rng.randint(1, min(3, maxl)); LB = rng.randint(0, min(3, maxl)); L = rng.randint(2, min(4, maxl))
+            A = [x * rng.loguniform(1e-5, 1e-3) for x in gen.rand_dir(rng)]; B = [x * rng.loguniform(1e-5, 1e-3) for x in gen.rand_dir(rng)]
+            sa = gen.rand_shell(rng, LA, A, nprim=1, emin=0.02, emax=0.06); sb = gen.rand_shell(rng, LB, B, nprim=1, emin=0.02, emax=0.06)
+            u = gen.rand_ecp(rng, L, [0.0, 0.0, 0.0], nper=(1, 1), amin=0.05, amax=1.0)
+            cases.append({"id": "s%d" % k, "extra": {"kind": kind}, "shells": [sa, sb], "ecps": [u]})
+            continue
         if kind == "opposite":
             # the two shells on opposite sides of the ECP centre (angle A-C-B near 180 degrees): a semi-local term depends on |A| and |B|,
             # not on |A-B|, so an estimate must not fall off with the distance between the shells
